@@ -55,3 +55,18 @@ job('node.dbkv.i4.two_leaves', ['C01'], 'u_db', 'proofs/node/kv_split.c', define
     cfgs=(BASE, DEBUG), unwind=30, floor=5, timeout=600, replay='replay/known_c01_kv_long_prefix_scenario.cpp',
     under_contract=['basic_inode_4<db, key_view>::basic_inode_4(db&, key_view k1, art_key shifted_k2, depth, leaf*, leaf unique_ptr&&) (two-leaf split node)', 'key_prefix<key_view>::key_prefix(k1, shifted_k2, depth)', 'add_two_to_empty'],
     trusted=['node_ptr as an abstract data type'])
+
+# ---- the three copy routines on the OLC instantiation (header-only constructor + init, as olc_db composes them); same harness, same loop invariants
+OLC_LEAFDEL = r'^unodb::detail::db_leaf_qsbr_deleter<unodb::olc_db<unsigned long, .*::operator\(\)'
+OLC_INODEDEL = r'^unodb::detail::db_inode_qsbr_deleter<unsigned long, %s, unodb::detail::olc_inode_%%d<unsigned long, %s > >::operator\(\)' % (SPAN, SPAN)
+def ofind_rx(n): return ((r'^unodb::detail::olc_inode_16<unsigned long, %s >::' % SPAN) if n == 16 else onode_rx(n)) + r'find_child\(std::byte\)'
+for frm, to in ((3, 4), (3, 2), (4, 3)):
+    nf, nt = CLSN[frm], CLSN[to]
+    job('node.olc64.ctor.i%d_to_i%d' % (nf, nt), ['C01', 'C10', 'C16'], 'u_olc', 'proofs/node/ctor.c', defines=['FROM=%d' % frm, 'TO=%d' % to, 'POL=OLC64', 'OLC_SPLIT_CTOR=1'],
+        roots={'HDR': onode_rx(nt) + r'basic_inode_%d\(unodb::olc_db<[^()]*>&, unodb::detail::olc_inode_%d<[^()]*> const&\)' % (nt, nf),
+               'INIT': onode_rx(nt) + r'init\(unodb::olc_db<[^()]*>&, unodb::detail::olc_inode_%d<[^()]*>&, %s' % (nf, 'std::unique_ptr' if to > frm else r'unsigned char\)'),
+               'SRC_FIND': ofind_rx(nf), 'DST_FIND': ofind_rx(nt)},
+        stubs={'LEAF_DEL': OLC_LEAFDEL, 'INODE_DEL': OLC_INODEDEL % nf}, cfgs=(BASE, DEBUG), thorough_cfgs=ALL_CFGS, unwind=258, floor=10, timeout=7200,
+        cut={(3, 4): ['INIT/while_2econd', 'INIT/for_2econd'], (4, 3): ['INIT/for_2econd'], (3, 2): ['INIT/while_2econd']}[(frm, to)], split=10,
+        under_contract=['basic_inode_%d<olc_db, uint64_t>: header constructor + init from inode_%d (%s), as composed by olc_db' % (nt, nf, 'growth' if to > frm else 'shrink')],
+        trusted=['counting form of the source invariant (ghost rank array)', 'pointwise (witness) form of the loop invariant after element-wise havoc of the destination arrays', 'relaxed-atomic fields run sequentially'])
